@@ -206,11 +206,11 @@ def build_case(group, base, rnd):
         v = rnd.choice(VALUES + [rnd.randrange(0x10000)])
         roll = rnd.random()
         if roll < 0.25:
-            name = f"k{len(syms)}"
+            name = rnd.choice(["k{}", "k{}", "ac1sav{}", "ac0tmp{}", "AC5x{}", "r1x{}", "sp{}", "pcount{}", "ac{}"]).format(len(syms) + 6)
             syms.append((name, v))
             return ("sym", name)
         if roll < 0.35:
-            name = f"k{len(syms)}"
+            name = f"k{len(syms) + 6}"
             syms.append((name, v - 5))
             return ("bin", "+", ("sym", name), apm.num(5))
         if roll < 0.45 and v >= 0x8000:
@@ -227,7 +227,7 @@ def build_case(group, base, rnd):
                 lo = v & 0o77
                 return ("bin", "!", apm.num(v & ~0o77), ("bin", "+", apm.num(lo // 2), apm.num(lo - lo // 2)))
             if shape == 2:
-                name = f"k{len(syms)}"
+                name = f"k{len(syms) + 6}"
                 syms.append((name, v & 0o177400))
                 return ("bin", "+", ("sym", name), ("bin", "*", apm.num(v & 0o377), ("bin", ">>", apm.num(8, "d"), apm.num(3))))
             return ("bin", "&", apm.num(v | 0o200000), ("bin", "-", apm.num(0o200000), apm.num(1)))
@@ -277,7 +277,15 @@ def build_case(group, base, rnd):
             stmts[a:b] = [apm.repeat(apm.num(rnd.choice([2, 2, 3])), stmts[a:b])]
     for name, v in syms:
         stmts.append(apm.assign(name, apm.num(v)))
-    layout = rnd.choice(["plain", "plain", "link-last", "included", "included-link-last"])
+    layout = rnd.choice(["plain", "plain", "link-last", "included", "included-link-last", "shadowed"])
+    if layout == "shadowed" and syms:
+        # an earlier linked file exports some of the names this file defines for itself (further down): its own definitions are meant
+        picked = rnd.sample(syms, min(len(syms), 6))
+        lib = [stmts[0], apm.insn("nop")] + [apm.assign(nm, apm.num((val + 0o1234) & 0o177777), extern=True) for nm, val in picked]
+        prog = apm.Program([apm.SrcFile("lib.mac", lib), apm.SrcFile("main.mac", stmts[1:])])
+        return {"kind": "prog", "layout": layout, "prog": apm.to_json(prog), "base": base, "text": apm.r_file(prog.files[1])}
+    if layout == "shadowed":
+        layout = "plain"
     if layout != "plain":
         # the same statements while every address is still symbolic: the base is stated after the code, and/or the code sits in an
         # included file that starts at a non-zero offset of the including one
